@@ -125,11 +125,14 @@ def plan(ctx):
         if ctx.quick:
             sel = fam.select(pool, 14, ctx.seed, name) + special
         else:
-            sel = pool + special + fam.random_args(ctx.seed, 30)
+            sel = fam.select(pool, 70, ctx.seed, name) + special + fam.random_args(ctx.seed, 10)
         # the first arguments are explored with both option flags symbolic (4 x the classes of k)
         sel = list(dict.fromkeys(special[:4] + sel))
-        units.append((name, sel, ctx.seed, 120 if ctx.quick else 600, 40 if ctx.quick else 120,
-                      4 if ctx.quick else 25))
+        nchunk = 2 if ctx.quick else 4
+        for c in range(nchunk):
+            # every chunk starts with its share of the fixed specials (explored with symbolic options)
+            units.append((name, sel[c::nchunk], ctx.seed, 120 if ctx.quick else 600, 40 if ctx.quick else 120,
+                          2 if ctx.quick else 3))
     return units
 
 
@@ -166,9 +169,9 @@ def run(ctx):
         pairs=pairs, longest_proof=maxlen, skipped_longer_than_bound=skipped[:40],
         skipped_count=len(skipped),
         bounds=dict(arguments='examples + modal + first-order shapes (families/args.py), '
-                    + ('14 per logic by seed + 9 fixed' if ctx.quick else 'all + 30 random per logic'),
+                    + ('14 per logic by seed + 9 fixed' if ctx.quick else '70 per logic by seed + 9 fixed + 10 random'),
                     step_limit='k ranges over all integers (symbolic); one class per prefix',
-                    options=f'is_group_optim / is_rank_optim symbolic on the first {4 if ctx.quick else 25} '
+                    options=f'is_group_optim / is_rank_optim symbolic on the first {4 if ctx.quick else 12} '
                             'arguments per logic, defaults elsewhere',
                     api='explicit step() loop (what build() does), return values compared with the history',
                     proof_length=f'natural length <= {40 if ctx.quick else 120} steps',
